@@ -1848,6 +1848,25 @@ def _compare_float(x, y) -> int:
     return (x > y) - (x < y)
 
 
+@compare.register(IPersistentVector)
+def _compare_vector(x: IPersistentVector, y) -> int:
+    if y is None:
+        return 1
+    if not isinstance(y, IPersistentVector):
+        raise TypeError(
+            f"cannot compare instances of '{type(x).__name__}' and '{type(y).__name__}'"
+        )
+    # Vectors are ordered by length and then by their first unequal element, compared
+    # by `compare` (rather than `<`) so nil and NaN elements follow the scalar rules
+    if len(x) != len(y):
+        return (len(x) > len(y)) - (len(x) < len(y))
+    for a, b in zip(x, y):
+        c = compare(a, b)
+        if c != 0:
+            return c
+    return 0
+
+
 @compare.register(IPersistentSet)
 def _compare_sets(x: IPersistentSet, y) -> int:
     # Sets are not comparable (because there is no total ordering between sets).
